@@ -85,9 +85,9 @@ FnEnd(id) ==
 
 \* A skipped action is rejected; once the repeat has enough rejections and its minimum (0 for Repeat) is reached, the rejection makes it STOP
 \* (RepeatSM!Reject) -- it never turns the whole test case invalid.  The harness reports whether such a rejection was the last thing the repeat
-\* did before the invocation unwound (see StreamTrace!InvEnd).
+\* did before the invocation unwound, without even one more coin flipped (the forced stop itself may give up after many coins; see StreamTrace!InvEnd).
 InvEnd == /\ Is("inv.end") /\ Adv /\ FnEnd(Ev.inv)
-          /\ viol' = viol \cup If("rejpend" \in DOMAIN Ev /\ Ev.rejpend /\ Ev.rejcoins < 1000 /\ Ev.how # "ret" /\ ~sm.ovr,
+          /\ viol' = viol \cup If("rejpend" \in DOMAIN Ev /\ Ev.rejpend /\ Ev.rejcoins = 0 /\ Ev.how # "ret" /\ ~sm.ovr,
                                   "skipped_action_invalidates_run")
           /\ sm' = IF sm.active THEN [sm EXCEPT !.active = FALSE] ELSE sm
           /\ UNCHANGED <<scen, kind, seen>>
@@ -188,7 +188,9 @@ SmActBegin ==
                   \cup If(sm.needInv /\ sm.steps = 0, "invariant_not_first")
                   \cup If(sm.needInv /\ sm.steps > 0, "invariant_missing_after_action")
                   \cup If(sm.inAct \/ sm.inInv, "actions_overlap")
-                  \cup If(sm.skips >= 100, "no_valid_action_not_reported")
+                  \* ("instead of looping forever": the code gives up after validActionTries = 100 skipped actions; the number is not part of the
+                  \* property -- a machine that really never gives up is caught by the watchdog as `hangs`)
+                  \cup If(sm.skips >= 100000, "no_valid_action_not_reported")
                   \cup If("*" \notin sm.actions /\ Ev.name \notin sm.actions, "action_not_supplied")   \* Repeat runs only the supplied actions
   /\ sm' = [sm EXCEPT !.inAct = TRUE, !.actDraws = 0, !.steps = @ + 1]
   /\ UNCHANGED <<scen, fr, kind, seen>>
